@@ -61,7 +61,7 @@ class Validated:
         b = self.body
         fl = flow(b)
         r = self.region
-        recv = r.call.arg_local(0)
+        recv = r.recv_local()
         if recv is None:
             self.why = "lock receiver is not a local reference"
             return
